@@ -283,7 +283,7 @@ cJSON *change_state(const struct peer *p, const cJSON *request)
 	cJSON_Delete(e->value);
 	e->value = value_copy;
 	if (unlikely(notify_fetchers(e, "change") != 0)) {
-		return create_error_response_from_request(p, request, INTERNAL_ERROR, "could not notify fetching peer", path);
+		log_peer_err(p, "Could not notify all fetching peers about change of %s\n", path);
 	}
 
 	return create_success_response_from_request(p, request);
@@ -403,11 +403,13 @@ cJSON *add_element_to_peer(struct peer *p, const cJSON *request)
 	}
 
 	if (unlikely(find_fetchers_for_element(e) != 0)) {
+		notify_fetchers(e, "remove");
 		free_element(e);
 		return create_error_response_from_request(p, request, INTERNAL_ERROR, "reason", "could not notify fetching peer");
 	}
 
 	if (unlikely(element_table_put(e->path, e) != HASHTABLE_SUCCESS)) {
+		notify_fetchers(e, "remove");
 		free_element(e);
 		return create_error_response_from_request(p, request, INTERNAL_ERROR, "reason", "element table full");
 	}
